@@ -135,7 +135,8 @@ func runC03(k *eng.Check, tier string) {
 	for _, fn := range nbs {
 		for _, st := range eng.FieldStores(fn, `store/nbs\.journalWriter$`, "off") {
 			name := eng.Name(eng.Outermost(fn))
-			ok := map[string]bool{"(*store/nbs.journalWriter).flush": true, "(*store/nbs.journalWriter).bootstrapJournal": true, "(*store/nbs.journalWriter).corruptIndexRecovery": true}[name]
+			// the owners, or helpers that are only ever called from them (an extracted helper is not a new owner)
+			ok := eng.OnlyCalledFrom(fn, map[string]bool{"(*store/nbs.journalWriter).flush": true, "(*store/nbs.journalWriter).bootstrapJournal": true, "(*store/nbs.journalWriter).corruptIndexRecovery": true}, nbs, 3)
 			k.Require("journal-offset-writer", name+"#journalWriter.off", "journalWriter.off is assigned only in flush, bootstrap and index recovery", ok, c.InstrPos(st), "journal offset written elsewhere")
 		}
 	}
